@@ -1982,8 +1982,20 @@ class AstEval:
         # python evaluates the positional arguments before the keyword arguments
         args = await self.eval_elt_list(arg.args)
         kwargs = {}
+        # explicit keywords since the last ** mapping; like python, they are checked against
+        # the earlier ones once the whole run of them has been evaluated
+        explicit = {}
+
+        def merge_explicit():
+            for key, value in explicit.items():
+                if key in kwargs:
+                    raise TypeError(f"got multiple values for keyword argument '{key}'")
+                kwargs[key] = value
+            explicit.clear()
+
         for kw_arg in arg.keywords:
             if kw_arg.arg is None:
+                merge_explicit()
                 this_kwargs = await self.aeval(kw_arg.value)
                 if not hasattr(this_kwargs, "keys"):
                     raise TypeError(f"argument after ** must be a mapping, not {type(this_kwargs).__name__}")
@@ -1994,7 +2006,8 @@ class AstEval:
                         raise TypeError(f"got multiple values for keyword argument '{key}'")
                     kwargs[key] = this_kwargs[key]
             else:
-                kwargs[kw_arg.arg] = await self.aeval(kw_arg.value)
+                explicit[kw_arg.arg] = await self.aeval(kw_arg.value)
+        merge_explicit()
         #
         # try to deduce function name, although this only works in simple cases
         #
